@@ -542,6 +542,8 @@ def _pds_to_dict(field_data):
         # get the pds length
         pds_field_length = int(field_data[field_pointer+4:field_pointer+7])
         LOGGER.debug("pds_field_length=[%i]", pds_field_length)
+        if pds_field_length < 0:
+            raise ValueError(f'PDS{pds_field_tag} has a negative length ({pds_field_length})')
 
         # get the pds data
         pds_field_data = field_data[field_pointer+7:field_pointer+7+pds_field_length]
